@@ -10,13 +10,22 @@ from typing import Any, Optional
 from . import fakes, loop as ctl
 
 
-def stmt_text(n: int) -> str:
+PATH_STMT = 9          # statement number 9 is a script given as a path — to a file that does not exist (the run would fail in the child)
+
+
+def stmt_text(n: int) -> Any:
+    if n == PATH_STMT:
+        from pathlib import Path
+        return Path('/nlv-no-such-dir/script.py')
     return f'x = {n}\n'
 
 
 def stmt_id(text: Any) -> str:
     if isinstance(text, str) and text.startswith('x = '):
         return text[4:].strip()
+    from pathlib import Path
+    if isinstance(text, Path) and str(text) == '/nlv-no-such-dir/script.py':
+        return str(PATH_STMT)
     return f'?{text!r}'
 
 
@@ -373,7 +382,9 @@ class Scenario:
             live = self.world.live()
             if live:
                 c = live[-1]
-                if w[1] == '-':
+                if w[1] == '+':
+                    c.exit(None, exitcode=3)          # os._exit(3): a hard exit with a positive exit status
+                elif w[1] == '-':
                     c.exit(None, exitcode=-9)
                 else:
                     c.exit(RunResult(ret=int(w[1])), exitcode=0)
